@@ -17,7 +17,7 @@ func isMsgRequestPred(c *chk.Ctx, g *ssa.Function) bool {
 		return false
 	}
 	m, e, r, id := false, false, false, false
-	ir.Instrs(g, func(ins ssa.Instruction) {
+	c.P.ExtInstrs(g, func(ins ssa.Instruction) {
 		if fa, ok := ins.(*ssa.FieldAddr); ok {
 			switch ir.FieldVar(fa) {
 			case c.M.JM:
@@ -227,22 +227,34 @@ func reachesAny(c *chk.Ctx, f, g *ssa.Function, depth int) bool {
 
 // filterFunc: the function that intercepts replies (looks up the callback table and appends messages).
 func filterFunc(c *chk.Ctx) *ssa.Function {
-	var out *ssa.Function
+	// the function in whose extended body (itself plus its private helpers) the callback table is
+	// consulted and a message list is built; of several nested candidates, the outermost
+	var cands []*ssa.Function
 	for _, f := range pkgFuncs(c, c.M.Pkg) {
 		hasLookup, hasAppend := false, false
 		c.P.ExtInstrs(f, func(ins ssa.Instruction) {
 			if lk, ok := ins.(*ssa.Lookup); ok && chk.LoadsField(lk.X, c.M.SCall) {
 				hasLookup = true
 			}
-		})
-		ir.Instrs(f, func(ins ssa.Instruction) {
 			if call, ok := ins.(*ssa.Call); ok {
 				if b, isB := call.Call.Value.(*ssa.Builtin); isB && b.Name() == "append" && isJmessagesType(c, call.Type()) {
 					hasAppend = true
 				}
 			}
 		})
-		if hasLookup && hasAppend {
+		if hasLookup && hasAppend && f.Signature.Results().Len() == 1 && isJmessagesType(c, f.Signature.Results().At(0).Type()) {
+			cands = append(cands, f)
+		}
+	}
+	var out *ssa.Function
+	for _, f := range cands {
+		inner := false
+		for _, g := range cands {
+			if g != f && c.P.InExt(g, f) {
+				inner = true
+			}
+		}
+		if !inner {
 			out = f
 		}
 	}
@@ -258,7 +270,7 @@ func ruleReplyFilter(c *chk.Ctx) {
 	}
 	loadsAllow := func(v ssa.Value) bool { return chk.LoadsField(v, c.M.SAllowP) }
 	n := 0
-	ir.Instrs(ff, func(ins ssa.Instruction) {
+	c.P.ExtInstrs(ff, func(ins ssa.Instruction) {
 		call, ok := ins.(*ssa.Call)
 		if !ok {
 			return
@@ -278,8 +290,15 @@ func ruleReplyFilter(c *chk.Ctx) {
 			return is
 		}
 		var alts [][]ir.Cond
-		for _, a := range ir.CondAltsAt(call.Block()) {
-			alts = append(alts, expandPredicateHelpersKeep(c, a, 0, recognised)...)
+		if call.Parent() == ff {
+			for _, a := range ir.CondAltsAt(call.Block()) {
+				alts = append(alts, expandPredicateHelpersKeep(c, a, 0, recognised)...)
+			}
+		} else {
+			// the append sits in a helper: one alternative per chain of call sites up to the filter
+			for _, ctx := range c.P.Contexts(call, func(f *ssa.Function) bool { return f == ff }) {
+				alts = append(alts, expandPredicateHelpersKeep(c, ctx, 0, recognised)...)
+			}
 		}
 		for _, alt := range alts {
 			isReq, notPush := false, false
